@@ -586,6 +586,19 @@ _ADD20 = {
     "C18": " A quarter of the signal cases let the same handler handle a second shutdown.",
     "C20": " Handlers may panic with http.ErrAbortHandler after answering with an explicit status.",
 }
+_ADD21 = {
+    "C07": " Twins also prepend a label to, or strip the first label of, the previous name.",
+    "C08": " The address pool holds addresses whose texts are prefixes of one another, with names that start with the difference.",
+    "C10": " A stats-pair kind lets writers set and delete equal-length entries while pollers assert Size = Count * entry length in every snapshot.",
+    "C11": " Sorted sets of about 2^20 values with exactly full storage (constructor, Clone) get Adds and Deletes in the middle and at the ends.",
+    "C14": " Prefix texts include the longest spellings of an address (four-digit hextets, dotted-quad tail, upper case).",
+    "C15": " In nested readers the limit carried by every *LimitError is attributed: the outer reader's own only when its own budget is delivered.",
+    "C18": " The real-signals kind may run two handlers on the default notifier.",
+    "C20": " Requests may already carry a logger in their context; nothing may be logged through it.",
+}
+for _pid, _lt in _ADD21.items():
+    PROPS[_pid]["level_text"] += _lt
+
 for _pid, _lt in _ADD20.items():
     PROPS[_pid]["level_text"] += _lt
 
